@@ -5,7 +5,7 @@ Model: `Model.lean`.  All theorems quantify over every module id / name, every r
 of `only-in` / `prefix-in`), every acyclic module graph (modules listed in dependency order) and every
 sequence of evaluation requests, failing ones included; nothing is bounded.
 -/
-import SteelVerif.C14.LemmasTbl
+import SteelVerif.C14.LemmasRefC
 import SteelVerif.C14.GenConsts
 namespace SteelVerif.C14
 
@@ -415,6 +415,154 @@ theorem module_isolation_legacy_fails :
         (st.tbl.lookup ['q', '.', 'f']).isSome
     run { contractImports := false } = some true ∧ run {} = some false := by
   decide
+
+/-! ## 5. Whole requests: the flat machine refines the per-module environments -/
+
+/-- What the two machines are compared on — what the driver prints and the harness observes on the real
+engine: the binding of every identifier a program can write, how often each module body ran, and what the
+names inside each instantiated module body resolve to. -/
+structure Agree (g : Graph) (ms : List SMod) (M : MState) (S : SState) : Prop where
+  obs : ∀ n, SourceIdent n → M.tbl.lookup n = S.top.lookup n
+  count : ∀ k, M.im.count k = if k ∈ S.inst then 1 else 0
+  view : ∀ k ∈ S.inst, mView M k = sView g ms k
+
+/-- The flat machine (variant `fix`) and S give the same status for every request of `reqs`, evaluated in
+order on one engine, and agree on everything observable afterwards. -/
+def RefinesOn (fix : Fix) (g : Graph) (reqs : List Request) : Prop :=
+  (runM fix g {} reqs).2 = (runS g (sBuild g) {} reqs).2 ∧
+    Agree g (sBuild g) (runM fix g {} reqs).1 (runS g (sBuild g) {} reqs).1
+
+/-- **M ⊑ S on whole requests** (the code as it is, `fix = {}`): for every acyclic module graph, every
+sequence of evaluation requests and every pattern of failing requests (macro mismatch, free identifier,
+runtime error), as long as the require specs are in the fragment on which flattening and composing agree
+(`canonical2`; outside: K14c), every module refers only to names bound in it, and the programs bind only
+identifiers that can be written in plain text (outside: K14d) — the real mechanism (mangled keys in one global
+table, `__module-…` tables, flattened requires, compiled-module table with roll-back, depth-first
+instantiation) yields, request by request, the status S yields, and afterwards binds every source identifier
+as S does, has evaluated exactly the module bodies S says are instantiated, each exactly once, and every read
+inside a module body resolves to what the module's own environment under S holds: its own definition if it
+has one (whatever other modules or the program call theirs), otherwise the import that was bound last.
+Since every prefix of a request sequence is a request sequence, this holds after every request. -/
+theorem whole_request_refinement_partial (g : Graph) (reqs : List Request) (hg : graphGuard g = true)
+    (hr : ∀ r ∈ reqs, reqGuard g (sBuild g) r = true) : RefinesOn {} g reqs := by
+  obtain ⟨hs, hrel⟩ := run_refines hg reqs {} {} hr (rel_init g (sBuild g))
+  refine ⟨hs, hrel.top, ?_, ?_⟩
+  · intro k
+    unfold IM.count
+    rw [List.Nodup.count hrel.kinv.nd]
+    by_cases hk : k ∈ (runM {} g {} reqs).1.im.inst
+    · simp [hk, (hrel.inst k).mp hk]
+    · have hk' : k ∉ (runS g (sBuild g) {} reqs).1.inst := fun h => hk ((hrel.inst k).mpr h)
+      simp [hk, hk']
+  · intro k hk
+    unfold mView
+    rw [hrel.views k ((hrel.inst k).mpr hk)]
+    rfl
+
+/-- The full statement — no guard on the require specs — is false for the code as it is (open finding K14c):
+`m0` provides `x`; the program `(require (only-in (prefix-in a. "m0") x))` runs on the flat machine (which
+binds `a.x`) and is ill-formed under S. -/
+theorem whole_request_refinement_fails :
+    let g : Graph := [⟨[['x']], [⟨['x'], false⟩], [], []⟩]
+    let reqs : List Request := [{ specs := [.onlyIn (.prefixIn ['a', '.'] (.path 0)) [(['x'], none)]] }]
+    g.wf = true ∧ (runM {} g {} reqs).2 = [.ok] ∧ (runS g (sBuild g) {} reqs).2 = [.errRequire] := by
+  decide
+
+/-- The guard on the identifiers a program binds is needed as well (open finding K14d): a program that
+requires `m0` and defines the (escaped) identifier `##mm0__%#__x` changes what `x` means INSIDE `m0`. -/
+theorem whole_request_refinement_fails_escaped :
+    let g : Graph := [⟨[['x']], [⟨['x'], false⟩], [], [['x']]⟩]
+    let reqs : List Request := [{ specs := [.path 0], defs := [mangle 0 ['x']] }]
+    graphGuard g = true ∧
+    mView (runM {} g {} reqs).1 0 = [(['x'], some ⟨.top 0, mangle 0 ['x'], false⟩)] ∧
+    sView g (sBuild g) 0 = [(['x'], some ⟨.mod 0, ['x'], false⟩)] := by
+  decide
+
+/-- Non-vacuity of `whole_request_refinement_partial`, and "which binding wins": `m0` and `m1` both define and
+provide `x` and a private `p`; `m1` also provides `f` under a contract; `m2` defines its own `p`, requires
+`m0` under a prefix and `m1` through an `only-in` that renames `x` to `p` (shadowed by `m2`'s own `p`) and
+re-exports `a.x`.  The programs: one that fails to compile, one that requires `m2` and `m1` (both bind …) and
+defines its own `x`, one that fails at run time. -/
+def clashGraph : Graph :=
+  [⟨[['x'], ['p']], [⟨['x'], false⟩], [], [['x'], ['p']]⟩,
+   ⟨[['x'], ['p'], ['f']], [⟨['x'], false⟩, ⟨['f'], true⟩], [], [['x'], ['p'], ['f']]⟩,
+   ⟨[['p']], [⟨['a', '.', 'x'], false⟩, ⟨['p'], false⟩],
+     [.prefixIn ['a', '.'] (.path 0), .onlyIn (.path 1) [(['x'], some ['p']), (['f'], none)]],
+     [['p'], ['a', '.', 'x'], ['f']]⟩]
+
+def clashReqs : List Request :=
+  [{ specs := [.path 2], mode := .failCompile },
+   { specs := [.path 2, .prefixIn ['a', '.'] (.path 1)], defs := [['x']] },
+   { specs := [.path 0], mode := .failRuntime }]
+
+theorem clash_in_guard : graphGuard clashGraph = true ∧
+    ∀ r ∈ clashReqs, reqGuard clashGraph (sBuild clashGraph) r = true := by
+  refine ⟨by decide, ?_⟩
+  intro r hr
+  simp only [clashReqs, List.mem_cons, List.mem_nil_iff, or_false] at hr
+  rcases hr with rfl | rfl | rfl <;> decide
+
+example : RefinesOn {} clashGraph clashReqs :=
+  whole_request_refinement_partial clashGraph clashReqs clash_in_guard.1 clash_in_guard.2
+
+/-- … and what S (hence, by the theorem, the flat machine) says on it: inside `m2`, `p` is `m2`'s own `p` (not
+the `x` of `m1` imported under that name), `a.x` is `m0`'s `x`, `f` is `m1`'s contracted `f`; at top level
+`a.x` was bound twice — the later require (`m1`'s `x`) wins —, `p` is `m2`'s, and `x`, which the second program
+defined itself, was bound again by the third program's require of `m0` (which ran, although its last expression
+failed). -/
+example :
+    sView clashGraph (sBuild clashGraph) 2 =
+      [(['p'], some ⟨.mod 2, ['p'], false⟩), (['a', '.', 'x'], some ⟨.mod 0, ['x'], false⟩),
+       (['f'], some ⟨.mod 1, ['f'], true⟩)] ∧
+    (runS clashGraph (sBuild clashGraph) {} clashReqs).2 = [.errSyntax, .ok, .errRuntime] ∧
+    ((runS clashGraph (sBuild clashGraph) {} clashReqs).1.top.lookup ['a', '.', 'x'],
+     (runS clashGraph (sBuild clashGraph) {} clashReqs).1.top.lookup ['p'],
+     (runS clashGraph (sBuild clashGraph) {} clashReqs).1.top.lookup ['x'],
+     (runS clashGraph (sBuild clashGraph) {} clashReqs).1.inst) =
+      (some ⟨.mod 1, ['x'], false⟩, some ⟨.mod 2, ['p'], false⟩, some ⟨.mod 0, ['x'], false⟩, [2, 0, 1]) := by
+  decide
+
+/-- **Which binding wins inside a module (S, hence M in the guard): the module's own definition**, whatever
+it imports under the same name. -/
+theorem own_definition_shadows_imports {g : Graph} (hg : graphGuard g = true) (k : Nat) (d : Name)
+    (hd : d ∈ (g.mod k).defs) : (senv (sBuild g) k).lookup d = some ⟨.mod k, d, false⟩ := by
+  obtain ⟨hwf, hG⟩ := guard_all hg
+  have hmg := hG k
+  simp only [modGuard, Bool.and_eq_true, List.all_eq_true] at hmg
+  have hall : ∀ s ∈ (g.mod k).reqs, ∃ l, s.importsS (sExports (sBuild g)) = some l := by
+    intro s hs
+    obtain ⟨l, hl, _⟩ := bind_same (sExports (sBuild g)) s (hmg.1 s hs)
+    exact ⟨l, hl⟩
+  rw [(senv_eq hwf k hall).1, List.reverse_append, List.lookup_append, ← List.map_reverse]
+  have : ((g.mod k).defs.reverse.map fun d => (d, (⟨.mod k, d, false⟩ : Val))).lookup d =
+      some ⟨.mod k, d, false⟩ := by
+    have hm : d ∈ (g.mod k).defs.reverse := List.mem_reverse.mpr hd
+    generalize (g.mod k).defs.reverse = l at hm
+    induction l with
+    | nil => simp at hm
+    | cons a l ih =>
+      simp only [List.map_cons, List.lookup_cons]
+      by_cases e : d = a
+      · subst e; simp
+      · have : (d == a) = false := by simpa using e
+        simp only [this]
+        exact ih ((List.mem_cons.mp hm).resolve_left e)
+  rw [this]
+  rfl
+
+/-- … and the flat machine agrees: after any request sequence in the guard, a module body that ran reads its
+own definition under every name it defines (corollary of the refinement; `views` lists the names read). -/
+theorem module_reads_own_definition (g : Graph) (reqs : List Request) (hg : graphGuard g = true)
+    (hr : ∀ r ∈ reqs, reqGuard g (sBuild g) r = true) (k : Nat)
+    (hk : k ∈ (runS g (sBuild g) {} reqs).1.inst) (d : Name) (hd : d ∈ (g.mod k).defs)
+    (hv : d ∈ (g.mod k).views) :
+    (d, some ⟨.mod k, d, false⟩) ∈ mView (runM {} g {} reqs).1 k := by
+  rw [(whole_request_refinement_partial g reqs hg hr).2.view k hk]
+  unfold sView
+  refine List.mem_map.mpr ⟨d, hv, ?_⟩
+  have := own_definition_shadows_imports hg k d hd
+  unfold senv at this
+  rw [this]
 
 /-! ## Clauses of the property not carried by a theorem
 
